@@ -218,7 +218,7 @@ Fixpoint resolve_pure (d : dir) (ml : list (bytes * bytes)) (path vers best : by
   | (p, v) :: r =>
       if bytes_eqb p path && semver_lt O best v then
         let hash := if is_pseudo O v then after_last hash_sep v else hash_of d p v in
-        if has_prefix vers hash || has_prefix hash vers
+        if hash_matches hash vers
         then resolve_pure d r path vers v
         else resolve_pure d r path vers best
       else resolve_pure d r path vers best
@@ -287,9 +287,9 @@ Proof.
   cbn [resolve resolve_pure].
   destruct (bytes_eqb p path && semver_lt O best v); [|apply IH].
   destruct (is_pseudo O v).
-  - destruct (has_prefix vers (after_last hash_sep v) || has_prefix (after_last hash_sep v) vers); apply IH.
+  - destruct (hash_matches (after_last hash_sep v) vers); apply IH.
   - rewrite run_own_find_hash.
-    destruct (has_prefix vers (hash_of d p v) || has_prefix (hash_of d p v) vers); apply IH.
+    destruct (hash_matches (hash_of d p v) vers); apply IH.
 Qed.
 
 Lemma zip_ops_resolve : forall A d ml path vers best (k : bytes -> prog A),
@@ -299,9 +299,9 @@ Proof.
   cbn [resolve resolve_pure].
   destruct (bytes_eqb p path && semver_lt O best v); [|apply IH].
   destruct (is_pseudo O v).
-  - destruct (has_prefix vers (after_last hash_sep v) || has_prefix (after_last hash_sep v) vers); apply IH.
+  - destruct (hash_matches (after_last hash_sep v) vers); apply IH.
   - rewrite zip_ops_find_hash.
-    destruct (has_prefix vers (hash_of d p v) || has_prefix (hash_of d p v) vers); apply IH.
+    destruct (hash_matches (hash_of d p v) vers); apply IH.
 Qed.
 
 Lemma run_own_serve_file : forall d path vers ext,
@@ -677,6 +677,64 @@ Proof.
         cbn [orb] in H. destruct (find_file (entry_dot ++ e) a); congruence.
       * cbn [orb] in H. destruct (bytes_eqb e ext_zip) eqn:E3; [|congruence].
         right. apply bytes_eqb_true. exact E3.
+Qed.
+
+(* ------------------------------------------------------------------ commit-hash resolution *)
+
+(* the hash a stored version answers to *)
+Definition version_hash (d : dir) (p v : bytes) : bytes :=
+  if is_pseudo O v then after_last hash_sep v else hash_of d p v.
+
+(* what the loop returns is the initial value or a version of the module list, of that path,
+   whose hash is not empty and is a prefix of the request or has the request as a prefix *)
+Lemma resolve_pure_sound : forall d ml path vers best,
+  resolve_pure d ml path vers best = best \/
+  (In (path, resolve_pure d ml path vers best) ml /\
+   hash_matches (version_hash d path (resolve_pure d ml path vers best)) vers = true).
+Proof.
+  intros d ml path vers. induction ml as [|[p v] r IH]; intro best; [left; reflexivity|].
+  cbn [resolve_pure].
+  destruct (bytes_eqb p path) eqn:Ep; cbn [andb].
+  - apply bytes_eqb_true in Ep. subst p.
+    destruct (semver_lt O best v).
+    + fold (version_hash d path v).
+      destruct (hash_matches (version_hash d path v) vers) eqn:Eh.
+      * destruct (IH v) as [H|[H1 H2]].
+        -- right. rewrite H. split; [left; reflexivity|exact Eh].
+        -- right. split; [right; exact H1|exact H2].
+      * destruct (IH best) as [H|[H1 H2]]; [left; exact H|right; split; [right; exact H1|exact H2]].
+    + destruct (IH best) as [H|[H1 H2]]; [left; exact H|right; split; [right; exact H1|exact H2]].
+  - destruct (IH best) as [H|[H1 H2]]; [left; exact H|right; split; [right; exact H1|exact H2]].
+Qed.
+
+Lemma hash_matches_nonempty : forall h v, hash_matches h v = true -> h <> [].
+Proof. intros h v H Hn. subst h. discriminate. Qed.
+
+(* a commit-hash request is looked up under the requested string itself, or under a version of
+   the module list whose non-empty hash matches it *)
+Theorem hash_resolution_sound : forall d ml path vers,
+  target_version d ml path vers = vers \/
+  (allhex vers = true /\ In (path, target_version d ml path vers) ml /\
+   version_hash d path (target_version d ml path vers) <> [] /\
+   hash_matches (version_hash d path (target_version d ml path vers)) vers = true).
+Proof.
+  intros d ml path vers. unfold target_version.
+  destruct (allhex vers) eqn:Eh; [|left; reflexivity].
+  destruct (resolve_pure_sound d ml path vers []) as [H|[H1 H2]].
+  - left. rewrite H. reflexivity.
+  - unfold pick_best. destruct (resolve_pure d ml path vers []) as [|c best] eqn:Er; [left; reflexivity|].
+    right. split; [reflexivity|]. split; [exact H1|]. split; [|exact H2].
+    eapply hash_matches_nonempty. exact H2.
+Qed.
+
+(* in particular: when no version of the path in the module list has a matching non-empty hash,
+   a commit-hash request for it is answered like a request for the literal version string *)
+Theorem hash_no_match : forall d ml path vers,
+  (forall v, In (path, v) ml -> hash_matches (version_hash d path v) vers = false) ->
+  target_version d ml path vers = vers.
+Proof.
+  intros d ml path vers Hno. destruct (hash_resolution_sound d ml path vers) as [H|[_ [H1 [_ H2]]]]; [exact H|].
+  rewrite (Hno _ H1) in H2. discriminate.
 Qed.
 
 End Facts.
